@@ -18,16 +18,19 @@ DRIVERS = ['drv_c03']
 MANIFEST = dict(
     technique='Lean 4 theorems (abort / rejection / commit-time rejection leave the model state unchanged; commit never '
               'fails half-way on well-formed tables) + differential correspondence with late writes into all handed-out objects',
-    text='Properties/C03.lean proves over the transcribed transaction model, for every script: an aborted, rejected or '
-         'commit-rejected transaction returns exactly the tables it started from and an empty result (no report), and a '
-         'commit on well-formed tables cannot fail after its first mutation. Isolation: the model is value-level, the real '
+    text='Properties/C03.lean (14 theorems) proves over the transcribed transaction model, for every script of all seven kinds: an '
+         'aborted, rejected or commit-rejected transaction returns exactly the tables it started from and an empty result (no '
+         'report); a commit on well-formed tables cannot fail after its first mutation (descriptor commits: the only commit-time '
+         'failure is the consistency check, which changes nothing); transaction_all_or_nothing. Isolation: a generated table of '
+         'every hand-out route x container class (shared mutable objects with the MDIB object, observed with `is`) is proved '
+         'empty by decide; the model is value-level, the real '
          'code is driven with writes at every nesting depth into every handed-out object and result object after each '
          'transaction, and must still agree with the model on every table dump; snapshots (content, versions, index '
          'consistency, sizes, wire messages) are compared before/after every non-commit.',
     note='Trusted: Lean kernel; harness/txharness.py; object identity abstracted to keys. Descriptors passed to '
          'add_descriptor are given to the MDIB (not handed out by it) and excluded from the isolation claim; failures of '
          'report serialisation inside the observers are not modelled.',
-    ref='5 C03')
+    ref='9 C03')
 RULE = ('one case = one transaction script inside a history incl. abort / rejected call / commit-time rejection, followed by '
         'late writes into all handed-out objects; distinct by canonical script + position; non-trivial = has a call')
 TRUSTED = c02.TRUSTED + ['deep_scribble reaches every nested mutable object through container properties']
